@@ -131,7 +131,7 @@ def main(argv=None):
             continue
         if any(fnmatch.fnmatch(f.key, pat) for pat in outside):
             skipped_outside.append(f.key)
-            if tier == "thorough" and not any("*" in pat and fnmatch.fnmatch(f.key, pat) for pat in outside):
+            if not any("*" in pat and fnmatch.fnmatch(f.key, pat) for pat in outside):
                 # outside the claim (undecided on the pinned tree): still executed in the thorough tier as a
                 # bug hunt - a reproducing counterexample is reported, an undecided verdict is not an error
                 f.hunt = True
@@ -139,6 +139,9 @@ def main(argv=None):
             continue
         if tier == "quick" and (f.tier == "thorough" or any(fnmatch.fnmatch(f.key, pat) for pat in slow)):
             skipped_slow.append(f.key)
+            # decided only in the thorough tier; the quick tier still gives it the replay lane (bug hunt, not counted)
+            f.hunt = True
+            fams.append(f)
             continue
         fams.append(f)
     if args.list:
@@ -167,6 +170,7 @@ def main(argv=None):
     opts.update(getattr(mod, "OPTS", {}).get(tier, {}))
     opts["outside_goals"] = pb.get("outside_goals", {})
     opts["hunt_outside_goals"] = tier == "thorough"
+    opts["hunt_replay_only"] = tier == "quick"  # quick tier: outside-claim families get the replay lane only
     if args.hard_s:
         opts["hard_s"] = args.hard_s
     if args.timeout_ms:
